@@ -9,7 +9,9 @@ import (
 	"context"
 	"crypto/ed25519"
 	"fmt"
+	"net"
 	"sync"
+	"sync/atomic"
 	"testing"
 	"time"
 
@@ -206,6 +208,17 @@ func TestVerifC06(t *testing.T) {
 	for i := 0; i < nSeq; i++ {
 		vC06Recovery(r, skey, ckey, i)
 	}
+	// ---- (4) the connection is lost between the end of its handshake and the moment the loop records it
+	vC06LossDuringHandshake(r, skey, ckey, 1)
+	vC06LossDuringHandshake(r, skey, ckey, 2)
+	// ---- (5) an established session stalls (nothing is drained any more, no error is ever reported)
+	vC06StalledSession(r, skey, ckey)
+	if vThorough() {
+		for k := 0; k < 6; k++ {
+			vC06LossDuringHandshake(r, skey, ckey, 1+k%3)
+			vC06StalledSession(r, skey, ckey)
+		}
+	}
 }
 
 func vC06Recovery(r *vRand, skey, ckey vKeyPair, i int) {
@@ -305,4 +318,271 @@ func vC06Recovery(r *vRand, skey, ckey vKeyPair, i int) {
 	}
 	vEmit(c)
 	vStop(ls.S, 5*time.Second)
+}
+
+// vC06Usable: Ready and a call in each direction succeeds, within d
+func vC06Usable(ls *vLibServer, cc *ClientConn, key vKeyPair, d time.Duration) (bool, string) {
+	var a, b error
+	ok := vWaitUntil(d, func() bool {
+		wctx, wcancel := context.WithTimeout(context.Background(), time.Second)
+		ready := cc.WaitForReady(wctx)
+		wcancel()
+		if !ready {
+			a, b = fmt.Errorf("state %s", cc.GetState()), nil
+			return false
+		}
+		a, b = vCallBoth(ls, cc, key)
+		return a == nil && b == nil
+	})
+	return ok, fmt.Sprint(a, " | ", b)
+}
+
+// vC06LossDuringHandshake: the n-th successful dial of the reconnect loop loses its connection right
+// after the handshake - the transport's close callback has run before the loop gets the transport
+// back (the hook sits inside the dial call). The loop must notice and dial again.
+func vC06LossDuringHandshake(r *vRand, skey, ckey vKeyPair, nth int) {
+	ls := vStartLibServer(skey, []ed25519.PublicKey{ckey.Pub}, true)
+	defer vStop(ls.S, 5*time.Second)
+	px := vStartProxy(ls.Addr)
+	defer px.Close()
+	info := map[string]interface{}{"lost_dial": nth, "outcome": "recovered=true"}
+	c := vCase{Class: "recovery/loss-during-handshake", Sig: fmt.Sprintf("loss-during-handshake/%d", nth), Info: info}
+	var dials int32
+	var sawEnd int32
+	vCapMu.Lock()
+	vCapAfterDial = func(ended <-chan struct{}) {
+		if int(atomic.AddInt32(&dials, 1)) != nth {
+			return
+		}
+		px.CutAll()
+		select {
+		case <-ended:
+			atomic.StoreInt32(&sawEnd, 1)
+		case <-time.After(3 * time.Second):
+		}
+	}
+	vCapMu.Unlock()
+	defer func() {
+		vCapMu.Lock()
+		vCapAfterDial = nil
+		vCapMu.Unlock()
+	}()
+	ctx, cancel := context.WithTimeout(context.Background(), 120*time.Second)
+	defer cancel()
+	cc, err := vDialLib(ctx, px.Addr, ckey, skey.Pub)
+	if err != nil {
+		c.Fail = "client-dial-failed"
+		vEmit(c)
+		return
+	}
+	cc.RegisterService(vDesc(), &vImpl{})
+	// earlier dials succeed and their sessions are cut once established
+	for k := 1; k < nth; k++ {
+		if ok, errs := vC06Usable(ls, cc, ckey, 10*time.Second); !ok {
+			c.Fail = "no-recovery-after/cut"
+			info["errs"] = errs
+			break
+		}
+		px.CutAll()
+		wctx, wcancel := context.WithTimeout(context.Background(), 2*time.Second)
+		cc.WaitForStateChange(wctx, connectivity.Ready)
+		wcancel()
+	}
+	if c.Fail == "" {
+		vWaitUntil(10*time.Second, func() bool { return int(atomic.LoadInt32(&dials)) >= nth })
+		ok, errs := vC06Usable(ls, cc, ckey, 10*time.Second)
+		info["close_callback_ran_before_the_loop_got_the_transport"] = atomic.LoadInt32(&sawEnd) == 1
+		info["successful_dials"] = atomic.LoadInt32(&dials)
+		info["state"] = cc.GetState().String()
+		if !ok {
+			c.Fail = "no-recovery-after-loss-during-handshake"
+			info["errs"] = errs
+			info["outcome"] = "recovered=false"
+		}
+	}
+	if !vClose(cc, 5*time.Second) {
+		c.Fail = "close-hangs"
+	}
+	vEmit(c)
+}
+
+// ---- a proxy whose established sessions can stall: from Stall on nothing is read from either side of
+// the sessions of that moment (the client's socket stays open and fills up, no error is ever
+// reported to it), their server-side sockets are closed (the server forgets the session), and new
+// connections are forwarded normally.
+type vStallProxy struct {
+	Addr   string
+	target string
+	lis    net.Listener
+	mu     sync.Mutex
+	sess   []*vStallSess
+	dials  int
+}
+type vStallSess struct {
+	c, s   net.Conn
+	frozen chan struct{} // closed: stop forwarding
+	once   sync.Once
+}
+
+func vStartStallProxy(target string) *vStallProxy {
+	lis, err := net.Listen("tcp", "127.0.0.1:0")
+	if err != nil {
+		panic(err)
+	}
+	p := &vStallProxy{Addr: lis.Addr().String(), target: target, lis: lis}
+	go func() {
+		for {
+			c, err := lis.Accept()
+			if err != nil {
+				return
+			}
+			if tc, ok := c.(*net.TCPConn); ok {
+				_ = tc.SetReadBuffer(32 << 10)
+			}
+			s, err := net.DialTimeout("tcp", target, 2*time.Second)
+			if err != nil {
+				c.Close()
+				continue
+			}
+			ss := &vStallSess{c: c, s: s, frozen: make(chan struct{})}
+			p.mu.Lock()
+			p.dials++
+			p.sess = append(p.sess, ss)
+			p.mu.Unlock()
+			pipe := func(dst, src net.Conn) {
+				buf := make([]byte, 16<<10)
+				for {
+					k, err := src.Read(buf)
+					select {
+					case <-ss.frozen:
+						return // keep both sockets as they are
+					default:
+					}
+					if k > 0 {
+						if _, werr := dst.Write(buf[:k]); werr != nil {
+							break
+						}
+					}
+					if err != nil {
+						break
+					}
+				}
+				select {
+				case <-ss.frozen:
+				default:
+					c.Close()
+					s.Close()
+				}
+			}
+			go pipe(s, c)
+			go pipe(c, s)
+		}
+	}()
+	return p
+}
+
+func (p *vStallProxy) DialCount() int { p.mu.Lock(); defer p.mu.Unlock(); return p.dials }
+func (p *vStallProxy) Stall() {
+	p.mu.Lock()
+	ss := append([]*vStallSess(nil), p.sess...)
+	p.mu.Unlock()
+	for _, x := range ss {
+		x.once.Do(func() { close(x.frozen) })
+		x.s.Close()
+	}
+}
+func (p *vStallProxy) Close() {
+	p.lis.Close()
+	p.mu.Lock()
+	ss := p.sess
+	p.sess = nil
+	p.mu.Unlock()
+	for _, x := range ss {
+		x.c.Close()
+		x.s.Close()
+	}
+}
+
+// vC06StalledSession: the session stalls while the client keeps calling (1 MiB requests, 300 ms
+// deadlines, write timeout 300 ms). Once its socket is full the client must give the session up
+// after the write timeout, dial again and be usable again.
+func vC06StalledSession(r *vRand, skey, ckey vKeyPair) {
+	wt := 300 * time.Millisecond
+	bound := 12 * time.Second
+	ls := vStartLibServer(skey, []ed25519.PublicKey{ckey.Pub}, true)
+	defer vStop(ls.S, 5*time.Second)
+	sp := vStartStallProxy(ls.Addr)
+	defer sp.Close()
+	info := map[string]interface{}{"write_timeout_ms": wt.Milliseconds(), "bound_ms": bound.Milliseconds(), "outcome": "recovered=true"}
+	c := vCase{Class: "recovery/stalled-session", Sig: "stalled-session", Info: info}
+	ctx, cancel := context.WithTimeout(context.Background(), 120*time.Second)
+	defer cancel()
+	cc, err := vDialLib(ctx, sp.Addr, ckey, skey.Pub, WithWriteTimeout(wt))
+	if err != nil {
+		c.Fail = "client-dial-failed"
+		vEmit(c)
+		return
+	}
+	cc.RegisterService(vDesc(), &vImpl{})
+	if ok, errs := vC06Usable(ls, cc, ckey, 10*time.Second); !ok {
+		c.Fail = "no-recovery-after/initial-connect"
+		info["errs"] = errs
+		vEmit(c)
+		sp.Close()
+		vClose(cc, 5*time.Second)
+		return
+	}
+	dials := sp.DialCount()
+	sp.Stall()
+	start := time.Now()
+	stop := make(chan struct{})
+	var wg sync.WaitGroup
+	var calls int32
+	var kmu sync.Mutex
+	kinds := map[string]int{}
+	for k := 0; k < 8; k++ {
+		wg.Add(1)
+		go func(k int) {
+			defer wg.Done()
+			payload := make([]byte, 1<<20)
+			for i := 0; ; i++ {
+				select {
+				case <-stop:
+					return
+				default:
+				}
+				cctx, ccancel := context.WithTimeout(context.Background(), 300*time.Millisecond)
+				err := cc.Invoke(cctx, "Echo", vAppMsg(fmt.Sprintf("st%d_%d", k, i), payload, ""), &message.Response{})
+				early := cctx.Err() == nil
+				ccancel()
+				atomic.AddInt32(&calls, 1)
+				kmu.Lock()
+				kinds[fmt.Sprint(err)]++
+				kmu.Unlock()
+				if err != nil && early {
+					time.Sleep(5 * time.Millisecond) // refused at once (not ready): do not spin
+				}
+			}
+		}(k)
+	}
+	redialled := vWaitUntil(bound, func() bool { return sp.DialCount() > dials })
+	info["redialled_after_ms"] = time.Since(start).Milliseconds()
+	close(stop)
+	wg.Wait()
+	info["calls_during_the_stall"] = atomic.LoadInt32(&calls)
+	info["call_results_during_the_stall"] = fmt.Sprint(kinds)
+	info["state"] = cc.GetState().String()
+	if !redialled {
+		c.Fail = "no-recovery-after-stalled-session"
+		info["outcome"] = fmt.Sprintf("the client has not dialled again %v after its session stalled (state %s)", bound, cc.GetState())
+	} else if ok, errs := vC06Usable(ls, cc, ckey, 10*time.Second); !ok {
+		c.Fail = "no-recovery-after-stalled-session"
+		info["errs"] = errs
+		info["outcome"] = "recovered=false"
+	}
+	sp.Close() // frees a write which is still stuck in the stalled socket
+	if !vClose(cc, 5*time.Second) && c.Fail == "" {
+		c.Fail = "close-hangs"
+	}
+	vEmit(c)
 }
